@@ -194,3 +194,12 @@ func runArch386(c *Ctx) {
 		r.Inconclusive(fmt.Sprintf("the 386 differential ended without its summary line (%v): %s", err, clipS(string(out))))
 	}
 }
+
+// forkFor returns a copy of the context with a random stream of its own, for a phase that runs beside others: the fork
+// is made by the caller, in its own goroutine, so that no two goroutines ever draw from (or fork) the same stream and
+// the case lists stay determined by the seed alone. The verdict sink and the environment are shared.
+func (c *Ctx) forkFor(label uint64) *Ctx {
+	sub := *c
+	sub.RNG = c.RNG.Fork(label)
+	return &sub
+}
